@@ -32,16 +32,26 @@ import (
 
 type tanioResult struct {
 	viol     string
+	openEnd  int      // counted FS operations of opening the store
+	opsEnd   int      // counted FS operations when the workload has ended
+	trace    []string // labels of the counted FS operations (fault-free measuring run)
 	writes   int
 	fired    bool
 	firedOp  string
 	timingMs int64
 }
 
-func runTanIO(kind string, mlfs int64, ops []op, failAt int, dropUnsynced bool) (res tanioResult) {
+// failAt: index of the failing log file write (fsMode false) or of the failing
+// counted FS operation (fsMode true); <0: no fault, the operations are recorded.
+func runTanIO(kind string, mlfs int64, ops []op, failAt int, fsMode bool, dropUnsynced bool) (res tanioResult) {
 	mem := newCrashMem()
-	fs := newPowerFS(mem, -1, false)
-	fs.failLogWrite = failAt
+	fs := newPowerFS(mem, -1, failAt < 0)
+	if fsMode {
+		fs.failOp = failAt
+		fs.failRegular = kind == "tan"
+	} else {
+		fs.failLogWrite = failAt
+	}
 	s := &cstore{kind: kind, mlfs: mlfs, fs: fs}
 	if w := s.open(); w != "" {
 		if fs.ioFired {
@@ -52,6 +62,7 @@ func runTanIO(kind string, mlfs int64, ops []op, failAt int, dropUnsynced bool) 
 			return res
 		}
 	}
+	res.openEnd = fs.counted()
 	acked := newCrashRef()
 	var inflight *op
 	if s.db != nil {
@@ -66,8 +77,12 @@ func runTanIO(kind string, mlfs int64, ops []op, failAt int, dropUnsynced bool) 
 			if firedNow {
 				res.fired, res.firedOp = true, o.Kind
 				if out == "ok" && res.viol == "" {
-					res.viol = fmt.Sprintf("failed-write-reported-as-success: store=%s op#%d %s returned success although log file write #%d failed",
-						kind, k, shortOp(o), failAt)
+					what := fmt.Sprintf("log file write #%d", failAt)
+					if fsMode {
+						what = fmt.Sprintf("FS operation #%d (%s)", failAt, fs.failedLabel)
+					}
+					res.viol = fmt.Sprintf("failed-write-reported-as-success: store=%s op#%d %s returned success although %s failed",
+						kind, k, shortOp(o), what)
 				}
 			}
 			if out == "ok" {
@@ -82,6 +97,12 @@ func runTanIO(kind string, mlfs int64, ops []op, failAt int, dropUnsynced bool) 
 		}
 	}
 	res.writes = fs.logWrites
+	res.opsEnd = fs.counted()
+	res.trace = fs.trace
+	// the fault belongs to the workload, not to the shutdown
+	fs.mu.Lock()
+	fs.failOp, fs.failLogWrite = -1, -1
+	fs.mu.Unlock()
 	if inflight != nil || s.db == nil {
 		// the operation failed: the engine panics, the process dies without closing
 		// the store; what was written survives, or only what was fsynced
@@ -102,7 +123,7 @@ func runTanIO(kind string, mlfs int64, ops []op, failAt int, dropUnsynced bool) 
 	}()
 	if w := s.open(); w != "" {
 		if res.viol == "" {
-			res.viol = fmt.Sprintf("cannot reopen after the write error (log file write #%d, during %s): %s", failAt, res.firedOp, w)
+			res.viol = fmt.Sprintf("cannot reopen after the I/O error (#%d, during %s): %s", failAt, res.firedOp, w)
 		}
 		return res
 	}
@@ -129,8 +150,8 @@ func runTanIO(kind string, mlfs int64, ops []op, failAt int, dropUnsynced bool) 
 			if res.fired {
 				what = "failed-write-reported-as-success-or-torn"
 			}
-			res.viol = fmt.Sprintf("%s: store=%s log file write #%d failed during %s; node %d reads back [%s] but the acknowledged state is [%s]",
-				what, kind, failAt, res.firedOp, n, clip(s.observe(n, &candA, nil).String()), clip(wantA.String()))
+			res.viol = fmt.Sprintf("%s: store=%s I/O operation #%d (%s) failed during %s; node %d reads back [%s] but the acknowledged state is [%s]",
+				what, kind, failAt, fs.failedLabel, res.firedOp, n, clip(s.observe(n, &candA, nil).String()), clip(wantA.String()))
 		}
 	}
 	return res
@@ -161,8 +182,8 @@ func parseTanIO(line string) (tanioCase, bool) {
 	if err != nil || m < 0 {
 		return tanioCase{}, false
 	}
-	if hf[4] != "all" && hf[4] != "none" {
-		if v, err := strconv.Atoi(hf[4]); err != nil || v < 0 {
+	if hf[4] != "all" && hf[4] != "none" && hf[4] != "fsall" {
+		if v, err := strconv.Atoi(strings.TrimPrefix(hf[4], "fs")); err != nil || v < 0 {
 			return tanioCase{}, false
 		}
 	}
@@ -183,11 +204,27 @@ func runTanIOLine(line string, obs *vh.LineWriter, st *vh.Stats) {
 	}
 	st.Count("tanio.kind." + c.kind)
 	var points []int
+	fsMode := strings.HasPrefix(c.k, "fs")
 	switch c.k {
 	case "none":
 		points = []int{-1}
+	case "fsall":
+		r0 := runTanIO(c.kind, c.mlfs, c.ops, -1, true, false)
+		if r0.viol != "" {
+			st.Violation(c.id, "tanio: fault-free run: "+r0.viol)
+			obs.Printf("%s tanio VIOLATION\n", c.id)
+			st.Case(c.key, false, c.line)
+			return
+		}
+		probe := &powerFS{failRegular: c.kind == "tan"}
+		for i := r0.openEnd; i < r0.opsEnd && i < len(r0.trace); i++ {
+			if probe.opEligible(r0.trace[i]) {
+				points = append(points, i, i)
+				st.Count("tanio.fsop." + strings.Fields(r0.trace[i])[0])
+			}
+		}
 	case "all":
-		r0 := runTanIO(c.kind, c.mlfs, c.ops, -1, false)
+		r0 := runTanIO(c.kind, c.mlfs, c.ops, -1, false, false)
 		if r0.viol != "" {
 			st.Violation(c.id, "tanio: fault-free run: "+r0.viol)
 			obs.Printf("%s tanio VIOLATION\n", c.id)
@@ -198,7 +235,7 @@ func runTanIOLine(line string, obs *vh.LineWriter, st *vh.Stats) {
 			points = append(points, i, i) // twice: unsynced data survives / is dropped
 		}
 	default:
-		v, _ := strconv.Atoi(c.k)
+		v, _ := strconv.Atoi(strings.TrimPrefix(c.k, "fs"))
 		points = []int{v, v}
 	}
 	results := make([]tanioResult, len(points))
@@ -210,7 +247,7 @@ func runTanIOLine(line string, obs *vh.LineWriter, st *vh.Stats) {
 			defer wg.Done()
 			sem <- struct{}{}
 			defer func() { <-sem }()
-			if p := vh.Catch(func() { results[i] = runTanIO(c.kind, c.mlfs, c.ops, points[i], i%2 == 1) }); p != "" {
+			if p := vh.Catch(func() { results[i] = runTanIO(c.kind, c.mlfs, c.ops, points[i], fsMode, i%2 == 1) }); p != "" {
 				results[i].viol = "harness panic: " + p
 			}
 		}(i)
@@ -225,7 +262,7 @@ func runTanIOLine(line string, obs *vh.LineWriter, st *vh.Stats) {
 			st.Count("tanio.fault-in." + r.firedOp)
 		}
 		if r.viol != "" && viol == "" {
-			viol = fmt.Sprintf("tanio: write#=%d %s", points[i], r.viol)
+			viol = fmt.Sprintf("tanio: fault#=%d %s", points[i], r.viol)
 		}
 	}
 	st.Case(c.key, fired, c.line)
@@ -282,6 +319,53 @@ func genTanIOCases(r *vh.Rand, tier string, n int) []string {
 		mlfs := []int64{0, 65536}[r.Intn(2)]
 		for _, kind := range []string{"tan", "tanmux"} {
 			out = append(out, fmt.Sprintf("io%d.%s tanio %s %d all | %s", i, kind, kind, mlfs, body))
+		}
+	}
+	// small entries and a small MaxLogFileSize: the log rolls over inside the workload
+	// (fsync of the old log, index file write / sync / rename, directory sync, new log,
+	// MANIFEST edit); an error is injected at EVERY one of these operations in turn
+	nf := 2
+	if tier == "thorough" {
+		nf = 10
+	}
+	if n > 0 {
+		nf = n/8 + 1
+	}
+	for i := 0; i < nf; i++ {
+		ref := newCrashRef()
+		var ops []op
+		tag := uint64(0)
+		add := func(nodes ...int) {
+			var ups []update
+			for _, node := range nodes {
+				nd := &ref.nodes[node]
+				u := update{N: node, I0: nd.last() + 1, St: hstate{Term: 1, Vote: 1, Commit: nd.last()}}
+				k := 1 + r.Intn(3)
+				for j := 0; j < k; j++ {
+					tag++
+					u.Ents = append(u.Ents, ent{Index: u.I0 + uint64(j), Term: 1, Tag: tag, Len: uint64(100 + r.Intn(120))})
+				}
+				ups = append(ups, u)
+			}
+			o := op{Kind: "SAVE", Ups: ups}
+			if ref.wf(o) {
+				ops = append(ops, o)
+				ref.apply(o)
+			}
+		}
+		for j := 0; j < 6+r.Intn(3); j++ {
+			switch r.Intn(4) {
+			case 0:
+				add(0, 1)
+			case 1:
+				add(2, 0)
+			default:
+				add(0)
+			}
+		}
+		body := opsText(ops)
+		for _, kind := range []string{"tan", "tanmux"} {
+			out = append(out, fmt.Sprintf("iofs%d.%s tanio %s %d fsall | %s", i, kind, kind, []int64{700, 1200}[i%2], body))
 		}
 	}
 	return out
